@@ -276,6 +276,44 @@ SEEDS = {
         needs="an interior sample whose two neighbours are equal to each other and different from it (symmetric triangular pulse)",
         detected_by={"C30": "pchip_gradient_finite_knots3: d(sum of interpolated values)/d(samples) is finite"},
     ),
+    "C07b": dict(
+        property="C07",
+        change="krylov_exp_impl multiplies both truncation-error estimates by |v|: the loop stops once |v|*err < tol, so for small |v| it reports converged far too early",
+        needs="an input vector with norm well below 1 and no happy breakdown",
+        detected_by={"C07": "honesty_dim2_k1_lanczos: converged is reported exactly when an iteration met the breakdown or error criterion"},
+    ),
+    "C08b": dict(
+        property="C08",
+        change="krylov_energy_minimization_impl loops range(max_restarts) instead of range(max_restarts + 1): with max_restarts=0 no cycle runs and the un-normalised start vector is returned with energy inf",
+        needs="max_restarts = 0",
+        detected_by={"C08": "bookkeeping_k1_restarts0: non-convergence is only reported after every allowed restart and iteration was used"},
+    ),
+    "C09b": dict(
+        property="C09",
+        change="create_impl tests `config.solver is Solver.DMRG`: a solver given as the documented string 'dmrg' silently runs TDVP",
+        needs="solver passed as the string 'dmrg' (or a config rebuilt from its abstract representation)",
+        detected_by={"C09": "dmrg_requested_dmrg_runs (added): solver=DMRG: create_impl returns the DMRG implementation", "C04": "mps_solver_selection_n2: DMRG requested: the DMRG solver runs (string/enum fork added)", "C33": "dmrg_refuses_noise_and_create_impl"},
+        strengthened="C09 and C04 MISSED it at first (C33 caught it): both only ever passed the enum. C04's solver-selection table now forks over the spelling, and C09 shares C33's dispatch case",
+    ),
+    "C17b": dict(
+        property="C17",
+        change="init_lindblad_noise aggregates `stacked.mT @ stacked` (L^T L) instead of L^dag L: jump weights are wrong for complex jump operators (depolarizing sigma_y gets a negative weight)",
+        needs="a jump operator with complex entries",
+        detected_by={"C17": "effective_hamiltonian_n2_ops1_d2: aggregated operator 0 = L^dag L"},
+    ),
+    "C33b": dict(
+        property="C33",
+        change="DMRGBackendImpl.__init__ refuses only when there are Lindblad operators instead of whenever the noise model has noise types",
+        needs="DMRG with a noise model made of non-Lindbladian noise only (SPAM, amplitude, detuning, doppler)",
+        detected_by={"C33": "dmrg_refuses_noise_and_create_impl: DMRGBackendImpl refuses exactly the noise models with noise", "C04": "mps_solver_selection_n2: DMRG with any noise is refused"},
+    ),
+    "C34b": dict(
+        property="C34",
+        change="MPSBackend.run folds every 32 pending per-trajectory Results into one partial aggregate that re-enters the final (unweighted) aggregation as a single result",
+        needs="emu-mps with n_trajectories >= 33 and a mean-aggregated observable",
+        detected_by={"C34": "run_mps: Results.aggregate receives one result per simulation, in order / is called exactly once (n_trajectories 32, 33, 65 added)"},
+        strengthened="MISSED at first: run() was only exercised with up to 5 trajectories. Added 32, 33 and 65 and the clause that aggregate is called exactly once, on the per-trajectory results themselves",
+    ),
     "C22b": dict(
         property="C22",
         change="_limit_endpoint tests `d_end * s_l < 0` instead of comparing signs: a flat end secant no longer zeroes the end slope (the original defect D1 in another guise, both ends)",
